@@ -82,7 +82,7 @@ func c01Ref(r *vref.VRep, n int64, startNr int64) c01SegRef {
 	N := int64(len(r.Segs))
 	w := n / N
 	i := int(n % N)
-	return c01SegRef{n: n, vodIdx: i, start: uint64(w)*r.LoopTicks() + r.Segs[i].Start, dur: r.Segs[i].Dur(), nr: startNr + n}
+	return c01SegRef{n: n, vodIdx: i, start: uint64(w)*r.Loop() + r.Segs[i].Start, dur: r.Segs[i].Dur(), nr: startNr + n}
 }
 
 // c01URL returns the segment URL (by number or by time) and the request instant (availability + 1 ms).
@@ -147,8 +147,8 @@ func TestVerifC01(t *testing.T) {
 			sort.Strings(ids)
 			for _, id := range ids {
 				r := a.Reps[id]
-				if r.LoopMismatch {
-					continue // a track shorter or longer than the loop cannot give a gap-free timeline; not in the statement
+				if r.LoopMismatch && r.LoopOverride == 0 {
+					continue // a track longer than the loop (or a loop that is no whole number of its ticks): not modelled
 				}
 				if r.Kind == "audio" {
 					continue
@@ -274,7 +274,8 @@ func c01RunCfg(rep *vh.Report, c c01Cfg, quick bool) {
 			// (d) contiguity with the previous segment
 			if havePrev {
 				rep.Hit("C01.d")
-				if sg.Start() != prevEnd {
+				// a track shorter than the loop has a hole at every wrap: its start there is judged by C01.b only
+				if sg.Start() != prevEnd && !(r.LoopMismatch && ref.vodIdx == 0) {
 					viol("C01.d", "gap", fmt.Sprintf("n=%d starts at %d but n-1 ended at %d", n, sg.Start(), prevEnd), url)
 				}
 			}
